@@ -439,7 +439,7 @@ def _mk_injections():
 
     @add("bad_type_name", lambda d: [(k, n) for k in ("object", "interface", "input", "enum", "union", "scalar") for n in BAD_NAMES if n])
     def _(d, pos, rng):
-        _fresh_type(d, pos[0], pos[1] + ("" if pos[1] in ("__x",) else ""))
+        _fresh_type(d, pos[0], pos[1] + str(next(_fresh)))   # unique, still ill-formed
         return "invalidTypeName"
 
     @add("empty_type", lambda d: [(k,) for k in ("object", "interface", "input", "enum", "union")])
@@ -1141,7 +1141,7 @@ def run_history_real(schema, ops):
                     if op["mode"] == "copy_bad":
                         from py_gql.schema import Field, InputField, EnumType, EnumValue, Int, InputObjectType
                         if isinstance(new, EnumType):
-                            new = EnumType(orig.name, list(orig.values) + [EnumValue("__bad")])
+                            new = EnumType(orig.name, list(orig.values) + [EnumValue("__bad%d" % len(orig.values))])
                         elif isinstance(new, InputObjectType):
                             new.fields = list(orig.fields) + [InputField("dup_in", lambda: schema.types["Query"])]
                         else:
